@@ -106,6 +106,12 @@ func (p *Pair) ExportImport(s *Side, env *Env, ep *EP, mutate func(raw []byte) [
 	if ep.MTU > 0 {
 		opts = append(opts, dtls.WithMTU(ep.MTU))
 	}
+	if ep.Store != "" {
+		opts = append(opts, dtls.WithSessionStore(env.Store(ep.Store)))
+	}
+	if ep.ServerName != "" {
+		opts = append(opts, dtls.WithServerName(ep.ServerName)) // a client's session store key
+	}
 	if ep.Padding > 0 {
 		pd := uint(ep.Padding) //nolint:gosec
 		opts = append(opts, dtls.WithPaddingLengthGenerator(func(uint) uint { return pd }))
